@@ -54,6 +54,10 @@ def _case(draw):
     for _ in range(nf):
         kind = draw(st.sampled_from(FAULT_KINDS))
         base = draw(gen.tame_base.filter(lambda b: gen.servable_name(b)))
+        # names that make a particular handler look at the entry first (gophermap, HTML title, mailbox, PYG, TAL, ZIP,
+        # compressed) and dot-names (link files of the UMN handler)
+        base = draw(st.sampled_from(["", "", "."])) + base + draw(st.sampled_from(
+            ["", "", "", ".gophermap", ".html", ".mbox", ".pyg", ".tal", ".zip", ".gz", ".txt", ".abstract"]))
         name = _fault_name(kind, base)
         if name in used:
             name = "q" + name
